@@ -300,6 +300,14 @@ def _s3(program, model, res):
     n = 0
     sqlm = program.cls("sql_model", "SQLModel")
     fns = [f for name, f in sqlm.methods.items() if name.endswith("_to_near_sql") or name == "_natural_join_sub_queries"]
+    # node classes that build their near-SQL themselves (convert_records) instead of delegating to the model
+    vr = program.module("view_representations")
+    for cls_ in program.all_classes():
+        if cls_.module is vr:
+            m_ = cls_.methods.get("to_near_sql_implementation_")
+            if m_ is not None and any(isinstance(c, ast.Call) and isinstance(c.func, ast.Attribute) and c.func.attr == "to_near_sql_implementation_"
+                                      and "sources" in unparse(c.func.value) for c in ast.walk(m_.node)):
+                fns.append(m_)
     for f in fns:
         g = cfgmod.build(f.node)
         d = depsmod.Deps(g, f.params())
